@@ -20,9 +20,10 @@ def primOf (kind : String) (fs : List Float) : Option P :=
   | "pt", [a, b, c] => some (.point ⟨a, b, c⟩)
   | "seg", [a, b, c, d, e, f] => some (.seg ⟨a, b, c⟩ ⟨d, e, f⟩)
   | "box", [a, b, c, d, e, f] => some (.box ⟨⟨a, b, c⟩, ⟨d, e, f⟩⟩)
+  | "tri", [a, b, c, d, e, f, g, h, i] => some (.tri ⟨a, b, c⟩ ⟨d, e, f⟩ ⟨g, h, i⟩)
   | _, _ => none
 
-def arity (kind : String) : Nat := if kind == "pt" then 3 else 6
+def arity (kind : String) : Nat := if kind == "pt" then 3 else if kind == "tri" then 9 else 6
 
 /-- parse `<depth|auto> <kind> <n> <n·arity floats> <rest floats>` -/
 def parseTree (args : List String) : Option (Option T × List Float) := do
